@@ -78,6 +78,7 @@ type Cfg struct {
 	PreserveFields   []string // Modules.RegisterPreserveFields
 	CustomHasher     bool     // Config.Core.Hasher is the application's own salted-SHA hasher (own error values), not the shipped bcrypt one
 	FoldPIDs         bool     // the storer looks identifiers up case-insensitively (a *_ci collation, citext)
+	AppHooksFirst    bool     // the application registers its event listeners before it initialises the modules
 	PersistArbitrary bool     // the user type stores every key PutArbitrary hands it (only sensible with an explicit RegWhitelist)
 }
 
@@ -373,6 +374,38 @@ func New(cfg Cfg, salt string) (w *World, err error) {
 		}
 	}
 
+	registerAppListeners := func() {
+		// the application's own event listeners (registered after the modules', as an application that
+		// calls Events.After(...) once authboss is initialised does). They do nothing unless HookMode arms
+		// them for the next request: "handled" = the listener answers the request itself (writes a page,
+		// returns handled=true), "error" = it fails. An armed listener fires on the first After-event of
+		// that request that nobody has handled yet.
+		for _, ev := range []authboss.Event{authboss.EventRegister, authboss.EventAuth, authboss.EventOAuth2, authboss.EventAuthFail, authboss.EventOAuth2Fail, authboss.EventRecoverEnd,
+			authboss.EventPasswordReset, authboss.EventLogout, authboss.EventTwoFactorAdded, authboss.EventTwoFactorRemoved} {
+			ev := ev
+			ab.Events.After(ev, func(rw http.ResponseWriter, r *http.Request, handled bool) (bool, error) {
+				if w.HookMode == "" || handled || w.cur == nil {
+					return false, nil
+				}
+				mode := w.HookMode
+				w.HookMode = ""
+				w.cur.AppHook = ev.String() + ":" + mode
+				if mode == "error" {
+					w.cur.FaultsFired++ // an injected failure like any other
+					return false, errors.New("application listener failed")
+				}
+				rw.Header().Set("Content-Type", "text/plain")
+				rw.WriteHeader(200)
+				rw.Write([]byte("application listener answered " + ev.String()))
+				return true, nil
+			})
+		}
+	}
+	if cfg.AppHooksFirst {
+		// an application that hooks the events BEFORE it initialises the modules: its listeners run first,
+		// and once one of them has answered a request the modules' own handlers are called with handled=true
+		registerAppListeners()
+	}
 	if err := ab.Init(cfg.Modules...); err != nil {
 		return nil, err
 	}
@@ -398,30 +431,8 @@ func New(cfg Cfg, salt string) (w *World, err error) {
 			return nil, err
 		}
 	}
-	// the application's own event listeners (registered after the modules', as an application that
-	// calls Events.After(...) once authboss is initialised does). They do nothing unless HookMode arms
-	// them for the next request: "handled" = the listener answers the request itself (writes a page,
-	// returns handled=true), "error" = it fails. An armed listener fires on the first After-event of
-	// that request that nobody has handled yet.
-	for _, ev := range []authboss.Event{authboss.EventRegister, authboss.EventAuth, authboss.EventOAuth2, authboss.EventAuthFail, authboss.EventOAuth2Fail, authboss.EventRecoverEnd,
-		authboss.EventPasswordReset, authboss.EventLogout, authboss.EventTwoFactorAdded, authboss.EventTwoFactorRemoved} {
-		ev := ev
-		ab.Events.After(ev, func(rw http.ResponseWriter, r *http.Request, handled bool) (bool, error) {
-			if w.HookMode == "" || handled || w.cur == nil {
-				return false, nil
-			}
-			mode := w.HookMode
-			w.HookMode = ""
-			w.cur.AppHook = ev.String() + ":" + mode
-			if mode == "error" {
-				w.cur.FaultsFired++ // an injected failure like any other
-				return false, errors.New("application listener failed")
-			}
-			rw.Header().Set("Content-Type", "text/plain")
-			rw.WriteHeader(200)
-			rw.Write([]byte("application listener answered " + ev.String()))
-			return true, nil
-		})
+	if !cfg.AppHooksFirst {
+		registerAppListeners()
 	}
 	w.Lock = &lock.Lock{Authboss: ab}
 	w.Conf = &confirm.Confirm{Authboss: ab}
